@@ -223,8 +223,14 @@ def run(ck: Checker):
     R.check_args(ck, eff, 'C07.ARGS', [SUM, R.ARITH + '._utils'])
     R.check_multiset(ck, 'C07.ARGS', [SUM, R.ARITH + '._utils'])
     ck.floor('C07.ARGS', 30)
-    R.check_endian(ck, 'C07.ENDIAN', [SUM], public, ENDIAN_EXEMPT)
-    ck.floor('C07.ENDIAN', 5)
+    ck.rule('C07.ENDIAN-REL', 'endianness as a relation: for every public generator with a big_endian parameter the big-endian call on operands given most significant bit first returns the reversed result of the little-endian call (both instantiated on equal host circuits, every value of the operand bits)')
+    from .. import num_folds as _nfe
+    _compared = _nfe.fold_endian_rel(ck, 'C07.ENDIAN-REL', [SUM], public, ENDIAN_EXEMPT)
+    ck.floor('C07.ENDIAN-REL', 3)
+    # the shape rule (reverse at entry, convert every return) knows one way of writing it: soft where the relation was instantiated
+    with ck.soft('C07.ENDIAN-REL (both endiannesses instantiated and compared)'):
+        R.check_endian(ck, 'C07.ENDIAN', [SUM], public, ENDIAN_EXEMPT, names=_compared)
+    R.check_endian(ck, 'C07.ENDIAN', [SUM], public, ENDIAN_EXEMPT, but=_compared)
     n = R.check_placeholders(ck, 'C07.PLACEHOLDER', [SUM])
     ck.need(n >= 1, f'only {n} placeholder-using functions of summation.py could be analysed (2 on the pinned tree)')
     ck.assume('level bookkeeping, distinct levels, the sum identity of composed circuits and the gate-count bounds are not decided')
